@@ -19,14 +19,15 @@ TNext == i <= Len(Rows) /\ i' = i + 1
 
 Same3(a, b) == a.ok = b.ok /\ a.v = b.v /\ a.exc = b.exc
 Verdict(r) ==
-  LET p  == RefShown(r.heap0, r.root, r.sp)
+  LET p1 == RefShownK(r.heap0, r.root, r.sp, 1)
+      p2 == RefShownK(r.heap0, r.root, r.sp, 2)
       mi == MinInits(r.heap0, r.root, r.sp)
       m1 == MEval(r.heap0, r.root, r.sp, VNone)
       m2 == MEval(m1.h, r.root, r.sp, m1.acc)
-      s1 == Shown(m2.h, m1)  s2 == Shown(m2.h, m2)
+      s1 == Shown(IF r.sp.init = "shlist" THEN m1.h ELSE m2.h, m1)  s2 == Shown(m2.h, m2)
   IN IF ~r.frame THEN "frame"
      ELSE IF ~r.indep THEN "independent"
-     ELSE IF ~Same3(r.obs[1], p) \/ ~Same3(r.obs[2], p) THEN "value"
+     ELSE IF ~Same3(r.obs[1], p1) \/ ~Same3(r.obs[2], p2) THEN "value"
      ELSE IF r.obs[1].inits >= 0 /\ (r.obs[1].inits < mi \/ r.obs[2].inits < mi) THEN "inits"
      ELSE IF ~Same3(r.obs[1], s1) \/ ~Same3(r.obs[2], s2) THEN "drift"
      ELSE ""
